@@ -160,8 +160,17 @@ def _execute(res, prog, p, faults, extractor, fail_save, rate, enabled, kind, ig
     res.utc_before = _now_utc()
     res.t_before = _t.time()
     import random as _random
+    import sys as _sys
     _random.seed(20240917)                     # the process-wide generator belongs to the service: the framework must not draw from it
-    res.outcome = in_caller_context(caller_context, lambda: res.live.run('live'))
+    # other process-wide settings belong to the service / its host too: this service raised the recursion limit after start-up
+    limit0 = _sys.getrecursionlimit()
+    _sys.setrecursionlimit(limit0 + 137)
+    try:
+        res.process_state_before = process_state()
+        res.outcome = in_caller_context(caller_context, lambda: res.live.run('live'))
+        res.process_state_after = process_state()
+    finally:
+        _sys.setrecursionlimit(limit0)
     res.global_random_after = _random.random()
     if enabled and not res.recorder.recording_enabled:
         res.recorder.enable_recording()       # a 'disable' kill switch fired during the run; later runs record again
@@ -175,6 +184,30 @@ def _execute(res, prog, p, faults, extractor, fail_save, rate, enabled, kind, ig
         res.twin_outcome = in_caller_context(caller_context, lambda: res.twin.run('live'))
         res.twin_global_random_after = _random.random()      # the twin is called from the same context
     return res
+
+
+def process_state():
+    """Process-wide interpreter / host settings a library has no business changing as a side effect of recording."""
+    import decimal
+    import gc
+    import locale
+    import logging
+    import os
+    import signal
+    import socket
+    import sys
+    import threading
+    import warnings
+    st = {'recursion limit': sys.getrecursionlimit(), 'switch interval': sys.getswitchinterval(), 'working directory': os.getcwd(),
+          'environment': dict(os.environ), 'excepthook': sys.excepthook, 'threading excepthook': threading.excepthook,
+          'garbage collector enabled': gc.isenabled(), 'gc thresholds': gc.get_threshold(), 'decimal precision': decimal.getcontext().prec,
+          'default socket timeout': socket.getdefaulttimeout(), 'warning filters': len(warnings.filters), 'locale': locale.setlocale(locale.LC_ALL),
+          'root logger level': logging.getLogger().level, 'root logger handlers': len(logging.getLogger().handlers), 'logging disabled below': logging.root.manager.disable,
+          'trace function': sys.gettrace(), 'profile function': sys.getprofile(), 'stdout': sys.stdout, 'stderr': sys.stderr, 'sys.path length': len(sys.path)}
+    if threading.current_thread() is threading.main_thread():
+        for name in ('SIGINT', 'SIGTERM', 'SIGCHLD', 'SIGALRM', 'SIGUSR1', 'SIGHUP', 'SIGPIPE'):
+            st['handler of ' + name] = signal.getsignal(getattr(signal, name))
+    return st
 
 
 CALLER_CONTEXTS = ('plain', 'except', 'except_interrupt', 'finally')
